@@ -354,6 +354,10 @@ def run(pid, tier_, replay=None):
     rng = random.Random(seed * 104729 + int(pid[1:]))
     if replay:
         obj = json.load(open(replay))
+        if isinstance(obj, dict) and "allocator_case" in obj:
+            print("replay of an allocator sequence: re-run `bin/check C14` (the sequences are regenerated by TLC from Allocator.tla); case: %s"
+                  % json.dumps(obj["allocator_case"])[:300])
+            return 2
         plan = [obj["stream"]] if "stream" in obj else (obj if isinstance(obj, list) else [obj])
         viol, outs, nev, _ = otap.execute(plan, shards=1)
         mine = [v for v in viol if v[1] == pid]
